@@ -36,7 +36,8 @@ impl EditState {
             }
             crate::FontMode::Unlimited | crate::FontMode::FixedSize => {
                 let new_font = BitFont::from_ansi_font_page(page)?;
-                if let Some(font) = self.get_buffer().get_font(0) {
+                // the undo record has to hold the font of the slot that gets replaced
+                if let Some(font) = self.get_buffer().get_font(self.caret.get_font_page()) {
                     let op = super::undo_operations::SetFont::new(self.caret.get_font_page(), font.clone(), new_font);
                     self.push_undo_action(Box::new(op))
                 } else {
@@ -59,7 +60,8 @@ impl EditState {
             }
             crate::FontMode::Unlimited | crate::FontMode::FixedSize => {
                 let new_font = BitFont::from_sauce_name(name)?;
-                if let Some(font) = self.get_buffer().get_font(0) {
+                // the undo record has to hold the font of the slot that gets replaced
+                if let Some(font) = self.get_buffer().get_font(self.caret.get_font_page()) {
                     let op = super::undo_operations::SetFont::new(self.caret.get_font_page(), font.clone(), new_font);
                     self.push_undo_action(Box::new(op))
                 } else {
@@ -99,7 +101,8 @@ impl EditState {
                 }
             }
             crate::FontMode::Unlimited | crate::FontMode::FixedSize => {
-                if let Some(font) = self.get_buffer().get_font(0) {
+                // the undo record has to hold the font of the slot that gets replaced
+                if let Some(font) = self.get_buffer().get_font(self.caret.get_font_page()) {
                     let op = super::undo_operations::SetFont::new(self.caret.get_font_page(), font.clone(), new_font);
                     self.push_undo_action(Box::new(op))
                 } else {
